@@ -1,1 +1,258 @@
-//! placeholder
+//! C28: vacuuming a closed database succeeds and leaves its logical content unchanged
+//! (relationships in both directions, properties, labels, indexes, vectors); the database stays
+//! fully usable afterwards.
+//!
+//! Oracle (differential, model-free): a generated history is executed and the database closed;
+//! the files are copied to a twin directory; the original is vacuumed; both are opened and every
+//! read view must agree; the same generated continuation is applied to both and must agree
+//! again, also after one more reopen of both.
+
+use super::vector::vector_facts;
+use crate::common::dump::{Universe, index_facts};
+use crate::common::r#gen::{GenCfg, HistoryGen};
+use crate::common::model::{Facts, Model, Op, diff_facts, history_to_json};
+use crate::common::report::{Args, CaseOut, Report, Violation, par_cases, threads};
+use crate::common::rng::Rng;
+use crate::common::sut::{ScratchDir, StepError, Sut};
+use crate::common::{diff_signature, facts_diff_json};
+use nervusdb_api::PropertyValue as PV;
+use serde_json::json;
+use std::time::{Duration, Instant};
+
+/// Every read view of a database: graph dump, index lookups for all values the model ever stored
+/// under an indexed field, vector searches.
+pub fn full_view(sut: &Sut, cfg: &GenCfg, model: &Model) -> Facts {
+    let uni = Universe { keys: &cfg.keys, types: &cfg.types };
+    let mut f = sut.dump(&uni);
+    let idx: Vec<(String, String)> = model.indexes.iter().cloned().collect();
+    if !idx.is_empty() {
+        let mut vals: Vec<PV> = Vec::new();
+        for n in &model.nodes {
+            for (k, v) in &n.props {
+                if idx.iter().any(|(_, fld)| fld == k) && !vals.contains(v) {
+                    vals.push(v.clone());
+                }
+            }
+        }
+        vals.push(PV::Int(424242));
+        f.extend(index_facts(&sut.db().snapshot(), &idx, &vals));
+    }
+    if cfg.vectors {
+        f.extend(vector_facts(sut.db(), cfg.vector_dim, 50));
+    }
+    f
+}
+
+fn gen_case(seed: u64, k: usize) -> (GenCfg, Vec<Op>, Vec<Op>, Model) {
+    let mut rng = Rng::derive(seed, k as u64);
+    let mut cfg = GenCfg::default();
+    // families: 0 plain, 1 with compaction, 2 with indexes, 3 with vectors, 4 everything
+    let fam = k % 5;
+    cfg.op_weights = match fam {
+        0 => [100, 0, 0, 0, 0, 4],
+        1 => [100, 30, 8, 0, 4, 4],
+        2 => [100, 12, 4, 14, 4, 4],
+        3 => [100, 12, 4, 0, 4, 4],
+        _ => [100, 25, 6, 10, 6, 6],
+    };
+    cfg.vectors = fam >= 3;
+    // keep away from the triggers of findings recorded under C04/C05 in half of the cases
+    if k % 2 == 1 {
+        cfg.multi_label = false;
+        cfg.append_only = true;
+    }
+    let n_ops = 6 + rng.below(20);
+    let cfg2 = cfg.clone();
+    let mut g = HistoryGen::new(&cfg2);
+    let mut h = g.gen_history(&mut rng, n_ops);
+    if fam == 1 || fam == 4 {
+        // make sure at least one segment exists when the database is closed
+        h.push(Op::Compact);
+        if rng.chance(1, 2) {
+            let w = g.gen_tx(&mut rng);
+            let op = Op::Tx { writes: w, commit: true };
+            g.model.apply_op(&op);
+            h.push(op);
+        }
+    }
+    let model_at_close = g.model.clone();
+    // continuation: writes only (plus one compaction now and then)
+    let mut cont_cfg = cfg.clone();
+    cont_cfg.op_weights = [100, 15, 0, 0, 0, 0];
+    let mut g2 = HistoryGen { cfg: &cont_cfg, model: g.model.clone(), next_ext: g.next_ext };
+    let n_cont = 2 + rng.below(5);
+    let cont = g2.gen_history(&mut rng, n_cont);
+    (cfg, h, cont, model_at_close)
+}
+
+fn copy_db(from: &std::path::Path, to: &std::path::Path) -> std::io::Result<()> {
+    for ext in ["ndb", "wal"] {
+        let src = from.with_extension(ext);
+        if src.exists() {
+            std::fs::copy(&src, to.with_extension(ext))?;
+        }
+    }
+    Ok(())
+}
+
+fn viol(k: usize, seed: u64, stage: &str, what: String, diff: &[(String, String, String)], h: &[Op], cont: &[Op], shape: &str) -> Violation {
+    let sig_diff = if diff.is_empty() { crate::storemon::normalise_msg(&what) } else { diff_signature(diff) };
+    Violation {
+        signature: format!("C28|{stage}:{sig_diff}|{shape}"),
+        summary: what,
+        detail: json!({"history": history_to_json(h), "continuation": history_to_json(cont), "diff": facts_diff_json(&diff[..diff.len().min(12)], "not-vacuumed", "vacuumed")}),
+        replay: json!({"engine":"storemon","property":"C28","seed":seed,"case":k}),
+    }
+}
+
+fn run_case(seed: u64, k: usize, out: &mut CaseOut) -> Option<Violation> {
+    let (cfg, h, cont, model) = gen_case(seed, k);
+    let has_segment = h.iter().any(|o| matches!(o, Op::Compact | Op::Checkpoint));
+    let has_index = !model.indexes.is_empty();
+    let has_vectors = !model.vectors.is_empty();
+    let shape = format!("segments={has_segment},indexes={has_index},vectors={has_vectors}");
+    let dir = ScratchDir::new("c28");
+    let twin = ScratchDir::new("c28t");
+    let mut sut = match Sut::open(&dir.db_base()) {
+        Ok(s) => s,
+        Err(_) => {
+            out.inconclusive("open");
+            return None;
+        }
+    };
+    for op in &h {
+        if let Err(e) = sut.apply(op) {
+            // a failing step before the vacuum is some other property's matter
+            out.inconclusive(&format!("history-step-failed:{}", crate::storemon::normalise_msg(&e.to_string())));
+            return None;
+        }
+    }
+    // close (checkpoint-on-close) in half of the cases, plain drop in the others
+    let db = sut.db.take().unwrap();
+    if k % 4 < 2 {
+        if db.close().is_err() {
+            out.inconclusive("close-failed");
+            return None;
+        }
+    } else {
+        drop(db);
+    }
+    if copy_db(&dir.db_base(), &twin.db_base()).is_err() {
+        out.inconclusive("copy");
+        return None;
+    }
+    out.evaluations += 1;
+    out.count("vacuums", 1);
+    if has_segment {
+        out.count("vacuums_with_segment", 1);
+    }
+    if has_index {
+        out.count("vacuums_with_index", 1);
+    }
+    if has_vectors {
+        out.count("vacuums_with_vectors", 1);
+    }
+    out.cell(format!("{shape},close={}", k % 4 < 2));
+    // the operation under test
+    let base = dir.db_base();
+    let vr = crate::common::sut::guard(|| ndb_core::vacuum(&base).map_err(|e| e.to_string()));
+    if let Err(e) = vr {
+        let kind = if matches!(e, StepError::Panic(_)) { "vacuum-panicked" } else { "vacuum-failed" };
+        return Some(viol(k, seed, kind, format!("vacuum of a closed database failed: {e}"), &[], &h, &[], &shape));
+    }
+    let mut a = match Sut::open(&twin.db_base()) {
+        Ok(s) => s,
+        Err(_) => {
+            out.inconclusive("twin-open-failed");
+            return None;
+        }
+    };
+    let mut b = match Sut::open(&dir.db_base()) {
+        Ok(s) => s,
+        Err(e) => return Some(viol(k, seed, "open-after-vacuum-failed", format!("the vacuumed database does not open: {e}"), &[], &h, &[], &shape)),
+    };
+    let d = diff_facts(&full_view(&a, &cfg, &model), &full_view(&b, &cfg, &model), usize::MAX);
+    if !d.is_empty() {
+        return Some(viol(k, seed, "content-changed-by-vacuum", "the vacuumed database differs from its un-vacuumed copy".into(), &d, &h, &[], &shape));
+    }
+    // continuation on both
+    let mut m = model.clone();
+    for (i, op) in cont.iter().enumerate() {
+        let ra = a.apply(op);
+        let rb = b.apply(op);
+        m.apply_op(op);
+        match (ra, rb) {
+            (Ok(()), Ok(())) => {}
+            (Err(_), Err(_)) => {
+                out.inconclusive("continuation-step-failed-on-both");
+                return None;
+            }
+            (Ok(()), Err(e)) => return Some(viol(k, seed, "write-after-vacuum-failed", format!("continuation step {i} fails only on the vacuumed database: {e}"), &[], &h, &cont, &shape)),
+            (Err(_), Ok(())) => {
+                out.inconclusive("continuation-step-failed-on-twin-only");
+                return None;
+            }
+        }
+        let d = diff_facts(&full_view(&a, &cfg, &m), &full_view(&b, &cfg, &m), usize::MAX);
+        if !d.is_empty() {
+            return Some(viol(k, seed, "content-differs-after-writes", format!("after continuation step {i} the vacuumed database differs from its un-vacuumed copy"), &d, &h, &cont, &shape));
+        }
+        out.count("continuation_steps_compared", 1);
+    }
+    let ra = a.apply(&Op::Reopen { close: false });
+    let rb = b.apply(&Op::Reopen { close: false });
+    match (ra, rb) {
+        (Ok(()), Ok(())) => {
+            let d = diff_facts(&full_view(&a, &cfg, &m), &full_view(&b, &cfg, &m), usize::MAX);
+            if !d.is_empty() {
+                return Some(viol(k, seed, "content-differs-after-second-reopen", "after writes and a reopen the vacuumed database differs from its un-vacuumed copy".into(), &d, &h, &cont, &shape));
+            }
+            out.count("second_reopens_compared", 1);
+        }
+        (Ok(()), Err(e)) => return Some(viol(k, seed, "reopen-after-vacuum-failed", format!("reopen after writes fails only on the vacuumed database: {e}"), &[], &h, &cont, &shape)),
+        _ => out.inconclusive("twin-reopen-failed"),
+    }
+    None
+}
+
+pub fn main(args: &Args) -> Report {
+    let mut rep = Report::new(
+        "C28",
+        &args.tier,
+        args.seed,
+        "exploration",
+        "generated histories (plain / compaction / indexes / vectors / all), closed or dropped; files copied to a twin; the original is vacuumed; both are opened and every read view (graph dump incl. both neighbour directions, index lookups, vector searches) must agree; a generated continuation of writes is applied to both and compared after every step and after one more reopen. A cell is (segments, indexes, vectors, close kind)",
+    );
+    rep.assume("the un-vacuumed copy is the reference, so defects of other properties (recorded under C04/C05) cancel out");
+    if let Some(p) = &args.replay {
+        let j: serde_json::Value = serde_json::from_str(&std::fs::read_to_string(p).expect("read replay")).expect("json");
+        let mut out = CaseOut::default();
+        if let Some(v) = run_case(j["seed"].as_u64().unwrap(), j["case"].as_u64().unwrap() as usize, &mut out) {
+            out.violations.push(v);
+        }
+        rep.out = out;
+        return rep;
+    }
+    let n = if args.thorough() { 6000 } else { 300 };
+    let deadline = Instant::now() + Duration::from_secs(args.budget_s(120, 1200));
+    let seed = args.seed;
+    let (out, done) = par_cases(n, threads(), Some(deadline), |k| {
+        let mut out = CaseOut::default();
+        if let Some(v) = run_case(seed, k, &mut out) {
+            out.violations.push(v);
+        }
+        if k < 3 {
+            let (_, h, cont, _) = gen_case(seed, k);
+            out.samples.push(json!({"case": k, "history": history_to_json(&h), "continuation": history_to_json(&cont)}));
+        }
+        out
+    });
+    rep.out = out;
+    rep.extra.insert("cases_done".into(), json!(done));
+    let t = args.thorough();
+    rep.floor("vacuums", rep.counter("vacuums"), if t { 3000 } else { 200 });
+    rep.floor("vacuums with a CSR segment", rep.counter("vacuums_with_segment"), if t { 1000 } else { 80 });
+    rep.floor("vacuums with indexes", rep.counter("vacuums_with_index"), if t { 500 } else { 30 });
+    rep.floor("vacuums with vectors", rep.counter("vacuums_with_vectors"), if t { 500 } else { 30 });
+    rep
+}
